@@ -130,7 +130,9 @@ func callGFunction(L *LState, tailcall bool) bool {
 		wantret = gfnret
 	}
 
-	if tailcall && L.Parent != nil && L.stack.Sp() == 1 {
+	if L.Parent != nil && L.stack.Sp() == 1 {
+		// the coroutine's last frame returns (a Go function tail-called by the body, or a
+		// Go function that is the body itself): hand the results to the resumer
 		switchToParentThread(L, wantret, false, true)
 		return true
 	}
